@@ -289,6 +289,25 @@ CLAIMED = {
        "GridKernel on batched grids, IndexKernel diag with a kernel batch, SGPR prediction at the training inputs (two defects), KISS-GP fantasy with "
        "fast_pred_samples, KISS-GP + fixed noise fantasy, out-of-range re-gridding with stale prediction caches.",
   technique="contract-based deductive verification: AST-extracted real functions, elementwise tensor domain (interleaved index arithmetic, binder-free sums), z3"),
+ "C14": dict(
+  category="other",
+  text="Proof tier (counted): VariationalStrategy.forward (whitened) executed symbolically with the Cholesky factor and its triangular solve as "
+       "callee contracts (A = SOLVE(L, Kzx), L L^T = Kzz + jitter I): the model is evaluated once on [Z; X], the factorised matrix is Kzz + jitter I, "
+       "the solve's right-hand side is Kzx, mean = mu_X + A^T m~, covariance = Kxx + jitter I + A^T (S~ - I) A (Delta: A^T (-I) A) in both "
+       "trace_mode forms, for symbolic m, n, batch; prior_distribution = N(0, I) of the variational shape; kl_divergence() = "
+       "KL(variational_distribution || prior_distribution); Cholesky / MeanField / Delta variational distributions return N(m, tril(C) tril(C)^T) / "
+       "N(m, diag s^2) / a point mass at m. Bounded tier (not counted): every (strategy x distribution) pair (standard, unwhitened, CIQ at tight "
+       "tolerance, batch-decoupled, orthogonally decoupled, grid-interpolation, LMC, independent multitask; Cholesky, mean-field, delta, natural, "
+       "tril-natural) on m <= 5, n <= 6, batch ranks 0..2: eval-mode mean / full covariance / KL and training-mode mean / variance against dense "
+       "float64 closed forms; whitened = unwhitened for the same q(u); q(u) = p(u) gives the prior and KL = 0; wrappers mix with the stated "
+       "coefficients, KL = sum of latent KLs.",
+  design_ref="DESIGN.md section 5, C14",
+  note="The closed form of the property follows from the proved expressions by substituting Kzz^-1 = L^-T L^-1 (cited algebra) with the jitter the "
+       "code adds written explicitly; the value of KL between MVNs is C10's contract; its invariance under u = mz + L e is cited. The two trace_mode "
+       "associations of the triple product are each stated as computed (equal by exchanging finite sums). Unwhitened, CIQ, decoupled, grid and "
+       "multitask strategies and the natural distributions' forward are bounded-tier only. Known findings (8 groups, e.g. orthogonally decoupled "
+       "mean / KL, batch-decoupled KL constant, grid strategy's hard-coded prior jitter, CIQ + natural) are listed in known_findings.json.",
+  technique="contract-based deductive verification: AST-extracted real functions, elementwise tensor domain with binder-free (nested) sums, Cholesky / solve as callee contracts, z3"),
 }
 REASON_NOT_BUILT = "contracts for this property are not built yet in this revision (see DESIGN.md section 9 build order); not claimed until its obligations are discharged by the checker"
 
